@@ -66,7 +66,7 @@ Definition is_cdisc (e : cev) : bool := match e with CDisc _ => true | _ => fals
 Definition has_disc (l : list cev) : bool := existsb is_cdisc l.
 
 (* the invariant tying the socket state to the monitor state *)
-Definition Legal (w : ws) : Prop :=
+Definition Core (w : ws) : Prop :=
   exists m, mon_run (MConn false) (trace w) = Some m
   /\ match st w with
      | Handshake => (exists t, m = MConn t) /\ flag w = None /\ pump w = false
@@ -76,7 +76,15 @@ Definition Legal (w : ws) : Prop :=
   /\ (flag w <> None -> handed w = true)
   /\ (has_disc (queue w) = true \/ (exists c, hand w = Some (CDisc c)) -> handed w = true).
 
-Lemma legal_init cl fl : Legal (ws0 cl fl).
+(* a receiver that was stopped while the socket stayed ACCEPTED: a close has been attempted
+   (and failed with an unrecognised error) or the client's disconnect has been handed over *)
+Definition Stop (c : cfg) (w : ws) : Prop :=
+  st w = Accepted -> pump w = false -> (cap c =? 0)%nat = false ->
+  handed w = true \/ mon_run (MConn false) (trace w) = Some (MOpen true).
+
+Definition Legal (c : cfg) (w : ws) : Prop := Core w /\ Stop c w.
+
+Lemma core_init cl fl : Core (ws0 cl fl).
 Proof.
   exists (MConn false). Transparent mon_run. cbn. Opaque mon_run.
   repeat split; eauto; try congruence. intros [H|[c H]]; discriminate.
@@ -92,8 +100,8 @@ Definition fits (s : wstate) (e : event) : Prop :=
   | _, _ => False
   end.
 
-Lemma do_send_legal e w x w' :
-  Legal w -> fits (st w) e -> do_send e w = (x, w') ->
+Lemma do_send_core e w x w' :
+  Core w -> fits (st w) e -> do_send e w = (x, w') ->
   flag w' = flag w /\ handed w' = handed w /\ pump w' = pump w /\ queue w' = queue w
   /\ hand w' = hand w /\ client w' = client w /\
   match x with
@@ -102,13 +110,16 @@ Lemma do_send_legal e w x w' :
                 /\ match e with
                    | EAccept _ _ => m = MOpen false
                    | EClose _ _ => m = MClosed
-                   | _ => exists t, m = MOpen t
+                   | _ => mon_run (MConn false) (trace w) = Some m /\ exists t, m = MOpen t
                    end
-  | Some y => Legal w'
+  | Some y => Core w'
               /\ (st w' = Closed
                   \/ (y = XOther /\ st w' = st w
                       /\ exists m, mon_run (MConn false) (trace w') = Some m
-                          /\ match e with EClose _ _ => closedish m = true | _ => True end))
+                          /\ match e with
+                             | EClose _ _ => closedish m = true
+                             | _ => mon_run (MConn false) (trace w) = Some m
+                             end))
   end.
 Proof.
   intros [m [Hm [Hst [Hfl Hdq]]]] Hfit Hs. dw w. unfold do_send in Hs; cbn in Hs.
@@ -120,7 +131,7 @@ Proof.
     + (* Handshake *)
       destruct Hst as [[t ->] [_ Hpu]].
       destruct fa as [|k fa]; cbn in Hs;
-        [|destruct k]; injection Hs as <- <-; unfold Legal; cbn;
+        [|destruct k]; injection Hs as <- <-; unfold Core; cbn;
         rewrite ?mon_run_app, ?Hm; destruct e; try (exfalso; exact Hfit); cbn;
         repeat split; eauto;
         try (eexists; split; [reflexivity|]; cbn; repeat split; eauto; congruence);
@@ -128,7 +139,7 @@ Proof.
     + (* Accepted *)
       destruct Hst as [t ->].
       destruct fa as [|k fa]; cbn in Hs;
-        [|destruct k]; injection Hs as <- <-; unfold Legal; cbn;
+        [|destruct k]; injection Hs as <- <-; unfold Core; cbn;
         rewrite ?mon_run_app, ?Hm; destruct e; try (exfalso; exact Hfit); cbn;
         repeat split; eauto;
         try (eexists; split; [reflexivity|]; cbn; repeat split; eauto; congruence);
